@@ -492,8 +492,26 @@ def check_design(job):
                      signature={"kind": "not-interpretable", "what": str(ex).split(':')[0][:60]}, replay={"spec": spec})]
     except rtlil_smt.Unsupported as ex:
         return [dict(base, kind="unsupported", status="skipped", detail=f"Unsupported: {ex}")]
-    except (SyntaxError, TypeError, ValueError, IndexError, NameError) as ex:
-        return [dict(base, kind="unconstructible", status="skipped", detail=f"{type(ex).__name__}: {ex}")]
+    except Exception as ex:
+        if (type(ex).__module__ or "").startswith("amaranth"):
+            return [dict(base, kind="unconstructible", status="skipped", detail=f"rejected by the language: {type(ex).__name__}: {ex}")]
+        # a design the language accepts must convert and simulate: confirm the crash on the genuine code paths
+        try:
+            with warnings.catch_warnings():
+                warnings.simplefilter("ignore")
+                t2, i2, o2, _ = BUILDERS[spec["family"]](spec)
+                d2 = Fragment.get(t2, None).prepare(ports=_ports(i2, o2))
+                rtlil.convert_fragment(d2, ports=_ports(i2, o2))
+                from amaranth.sim import Simulator
+                with symsim.real_states():
+                    t3, _, _, _ = BUILDERS[spec["family"]](spec)
+                    Simulator(t3)
+        except Exception as ex2:
+            if (type(ex2).__module__ or "").startswith("amaranth"):
+                return [dict(base, kind="unconstructible", status="skipped", detail=f"rejected by the language: {type(ex2).__name__}: {ex2}")]
+            return [dict(base, kind="construction", status=VIOLATION, detail=f"{base['program'][:300]}: converting / simulating the design raises {type(ex2).__name__}: {str(ex2)[:200]}",
+                         signature={"kind": "construction", "exception": type(ex2).__name__}, replay={"spec": spec})]
+        return [dict(base, kind="construction", status=ERROR, detail=f"the harness raised {type(ex).__name__}: {ex}, the genuine conversion and Simulator() do not")]
     sim, R = M.sim, M.R
     out = []
     # --- initial contents (concrete)
@@ -846,7 +864,7 @@ def families(tier, seed):
         jobs.append({"family": "expr", "prog": p, "child": r.random() < 0.3})
     for p in G.const_operand_programs(4):
         jobs.append({"family": "expr", "prog": p, "child": False})
-    for p in G.extension_programs():
+    for p in G.extension_programs() + G.reflected_programs():
         jobs.append({"family": "expr", "prog": p, "child": False})
     for k in range(16 if tier == "quick" else 200):
         jobs.append({"family": "split", "seed": seed * 100 + k, "kind": ["sync+comb", "comb+sync", "two-domains", "two-modules"][k % 4],
